@@ -108,7 +108,16 @@ func newWSHandler(host string, dial dialFunc, conn gkm.Gauge) http.Handler {
 			errc <- err
 		}
 
-		go cp(out, in)
+		go func() {
+			_, err := io.Copy(out, in)
+			// the client is done sending but may still wait for the reply:
+			// pass the end of its stream on to the upstream server and let the
+			// other direction end the tunnel
+			if cw, ok := out.(interface{ CloseWrite() error }); ok && err == nil && cw.CloseWrite() == nil {
+				return
+			}
+			errc <- err
+		}()
 		go cp(in, out)
 		err = <-errc
 		if err != nil && err != io.EOF {
